@@ -3391,6 +3391,10 @@ sf_set_chunk (SNDFILE * sndfile, const SF_CHUNK_INFO * chunk_info)
 	if (chunk_info == NULL || chunk_info->data == NULL)
 		return SFE_BAD_CHUNK_PTR ;
 
+	/* Custom chunks are stored in the header, which cannot grow once audio data follows it. */
+	if (psf->have_written)
+		return SFE_CMD_HAS_DATA ;
+
 	if (psf->set_chunk)
 		return psf->set_chunk (psf, chunk_info) ;
 
